@@ -256,8 +256,7 @@ def oneStrand (l : Loc) : Bool :=
 /-- the record is not empty; the region lies in it (`start < end`, or `0 < end ≤ start < L` when it runs over
     the origin — `start = end`: all the way round); every feature has non-empty parts inside the record.  For a
     region over the origin, where `offset_location` is at work: a feature that runs over the origin has one
-    part on each side of it, or is shorter than the record with all parts on one strand; any other feature has
-    exons that fit into its hull (they do not overlap) and all parts on one strand -/
+    part on each side of it; any other feature is not as long as the record and has all parts on one strand -/
 def wfInput (rd : RegionData) (rec : BioRecord) : Bool :=
   let L := rec.length
   decide (0 < L) &&
@@ -266,8 +265,7 @@ def wfInput (rd : RegionData) (rec : BioRecord) : Bool :=
   rec.features.all fun f =>
     partsOK L f.loc &&
     (!rd.crossesOrigin ||
-      (if bridgesOrigin f.loc then twoPart L f.loc || (decide (f.loc.len ≠ L) && oneStrand f.loc)
-       else decide (f.loc.len ≤ f.loc.end - f.loc.start) && oneStrand f.loc))
+      ((bridgesOrigin f.loc && twoPart L f.loc) || (decide (f.loc.len ≠ L) && oneStrand f.loc)))
 
 /-! ### references go through one renumbering per kind -/
 
